@@ -2,14 +2,17 @@
 #include <oneapi/tbb/concurrent_unordered_set.h>
 #include <oneapi/tbb/concurrent_set.h>
 #include <cstdio>
+#include <cstring>
 int main() {
     using U = tbb::concurrent_unordered_set<int>;
     using S = tbb::concurrent_set<int>;
     U u;
+    float mlf0 = u.max_load_factor(); unsigned mlf_bits; memcpy(&mlf_bits, &mlf0, 4);
     printf("{\"sokeyBits\": %zu, \"initialBucketCount\": %zu, \"initialMaxLoadFactorMilli\": %ld, \"pointersPerEmbeddedTable\": %zu, "
-           "\"defaultBucketCount\": %zu, \"defaultMaxLoadFactorMilli\": %ld, \"skipMaxLevel\": %zu, \"roundUp5\": %zu, \"roundUp8\": %zu}\n",
+           "\"defaultBucketCount\": %zu, \"defaultMaxLoadFactorMilli\": %ld, \"skipMaxLevel\": %zu, \"roundUp5\": %zu, \"roundUp8\": %zu, "
+           "\"initialMlfBits\": %u}\n",
            sizeof(U::sokey_type) * 8, (size_t)U::initial_bucket_count, (long)(U::initial_max_load_factor * 1000), (size_t)U::pointers_per_embedded_table,
            u.unsafe_bucket_count(), (long)(u.max_load_factor() * 1000), (size_t)S::max_level,
-           (size_t)U::round_up_to_power_of_two(5), (size_t)U::round_up_to_power_of_two(8));
+           (size_t)U::round_up_to_power_of_two(5), (size_t)U::round_up_to_power_of_two(8), mlf_bits);
     return 0;
 }
